@@ -449,7 +449,16 @@ pub fn check_proxy(run: &mut Run) {
                         bump!("fault.answer_cut_mid_body");
                     }
                     // the client parsed a complete response carrying the host's status although the host's body was cut
-                    if *place == "body" && !close_delimited && !bodyless && m.status() == spec_status && !m.until_close {
+                    // ... and the head it parsed is the host's own (an error answer made up by the proxy can carry the same
+                    // status): one of the host's distinctive headers came through, or it is the plain 200 echo
+                    let head_from_host = match spec {
+                        None => m.status() == 200,
+                        Some(s) => s.headers.iter().any(|(n, v)| {
+                            let ln = n.to_ascii_lowercase();
+                            (ln.starts_with("x-resp") || ln == "etag") && m.head.get_all(&ln).iter().any(|x| x.as_slice() == trim_ows(v))
+                        }),
+                    };
+                    if *place == "body" && !close_delimited && !bodyless && m.status() == spec_status && !m.until_close && head_from_host && !net_faulted {
                         if let Some(want) = intended {
                             bump!("c14.cut_in_body_complete_at_client");
                             if m.body != want {
